@@ -1771,6 +1771,23 @@ class Run:
                 return PyTuple(v.items, True)
             if isinstance(v, SV) and isinstance(v.ty, T.List):
                 return self.copy_list(v)
+            if isinstance(v, DictView) and v.kind in ("keys", "values") or (isinstance(v, SV) and isinstance(v.ty, T.Dict)):
+                # list(d) / list(d.keys()) / list(d.values()): a fresh list of the keys (values) in insertion order
+                cnt, elem, cont = self.iter_desc(v)
+                x0 = elem(z3.IntVal(0))
+                t = T.List(x0.ty)
+                out = self.new_container(t)
+                hp = self.heap
+                es = T.sort(x0.ty)
+                arr = H.fresh("lst_elems", z3.ArraySort(H.I, es))
+                hp._upd(t, "elem", out.z, arr)
+                nm_, a_ = hp.carr(t, "len")
+                hp.set(nm_, z3.Store(a_, out.z, cnt))
+                i = z3.Int(H.fresh_name("lk_i"))
+                self.assume(z3.ForAll([i], z3.Implies(z3.And(0 <= i, i < cnt), z3.Select(arr, i) == elem(i).z), patterns=[z3.Select(arr, i)]))
+                self.assume(hp.l_mem_def(t, out.z))
+                self.assume(hp.l_index_mem(t, out.z))
+                return out
             raise Reject("list(iterable)")
         if name == "tuple":
             (v,) = args
